@@ -202,7 +202,10 @@ class History:
             pass
         if w.errors:
             name, exc = w.errors[0]
-            self.fails.append(('task_died', f'phase {phase}: the server task "{name}" ended with {exc!r}'))
+            clause = 'task_died'
+            if name == 'bp' and w.stale_block_outside_window(exc):
+                clause = 'task_died_F21'      # the shape of known finding F21 (C03): classified, see check.py
+            self.fails.append((clause, f'phase {phase}: the server task "{name}" ended with {exc!r}'))
             return
         if not w.quiescent():
             self.fails.append(('harness', f'phase {phase}: not quiescent'))
@@ -732,7 +735,7 @@ def _run(tier, seed, want, name):
                         res.harness_errors.append(f'{scen} {variant}: {f[1]}')
                 real = [f for f in fails if f[0] != 'harness']
                 if real:
-                    res.violations.append({'suite': name, 'clause': real[0][0], 'tags': sorted({c for c, _d in real}), 'detail': real[0][1], 'seed': seed,
+                    res.violations.append({'suite': name, 'clause': real[0][0], 'tags': sorted({c for c, _d in real} | ({'F21'} if any(c == 'task_died_F21' for c, _d in real) else set())), 'detail': real[0][1], 'seed': seed,
                                            'scenario': [scen, variant], 'events': h.events[-20:],
                                            'all_failures': [f'{c}: {d}' for c, d in real[:6]]})
     for idx in range(n):
@@ -749,7 +752,7 @@ def _run(tier, seed, want, name):
             if f[0] == 'harness':
                 res.harness_errors.append(f'history {idx} (seed {seed}): {f[1]}')
         if real:
-            res.violations.append({'suite': name, 'clause': real[0][0], 'tags': sorted({c for c, _d in real}), 'detail': real[0][1],
+            res.violations.append({'suite': name, 'clause': real[0][0], 'tags': sorted({c for c, _d in real} | ({'F21'} if any(c == 'task_died_F21' for c, _d in real) else set())), 'detail': real[0][1],
                                    'seed': seed, 'history': idx, 'want': sorted(want), 'events': h.events[-60:],
                                    'all_failures': [f'{c}: {d}' for c, d in real[:6]]})
             if len(res.violations) >= 3:
